@@ -95,11 +95,25 @@ def top(mrules):
 
 
 def _dedupe(rules):
-    seen, out = set(), []
+    """rules with the same row text that meet at one level (children of several matching rules, or a %global rule
+    inherited from above meeting one declared here) are one rule: flags and generator names are united, children too"""
+    index, out = {}, []
     for r in rules:
-        if r.pattern not in seen:
-            seen.add(r.pattern)
+        m = index.get(r.pattern)
+        if m is None:
+            index[r.pattern] = r
             out.append(r)
+            continue
+        if m is r:
+            continue
+        u = MRule(r.pattern)
+        u.glob = m.glob or r.glob
+        u.cds = list(m.cds) + list(r.cds)
+        u.gens = list(m.gens) + list(r.gens)
+        u.children = list(m.children) + list(r.children)
+        u._kids = []
+        out[out.index(m)] = u
+        index[r.pattern] = u
     return out
 
 
